@@ -148,7 +148,7 @@ func C02(c *Ctx) error {
 	n := c.N(6, 40)
 	perMethod := c.N(25, 120)
 	bt, items, err := buildBatch(n, func(i int) *ir.Request {
-		return gen.GenRuntimeFile(r.Fork(fmt.Sprint("c02-", i)), i, gen.RuntimeOpts{ManyMethods: i%2 == 1, RepeatedQuery: true, JSONNames: i%3 == 0})
+		return gen.GenRuntimeFile(r.Fork(fmt.Sprint("c02-", i)), i, gen.RuntimeOpts{ManyMethods: i%2 == 1, RepeatedQuery: true, JSONNames: i%3 == 0, OptionalQuery: true})
 	}, scratch.AddOpts{GoHTTP: true}, false)
 	if err != nil {
 		return err
